@@ -260,7 +260,12 @@ func (v *Validator) validateFile(filename string) output.FileValidationResult {
 	// Convert TokenWithSpan to Token using centralized converter
 
 	// Parse to validate syntax with proper error handling for memory management
-	p := parser.NewParser(parser.WithDialect(v.Opts.Dialect))
+	parserOpts := []parser.ParserOption{parser.WithDialect(v.Opts.Dialect)}
+	if v.Opts.StrictMode {
+		// --strict / validate.strict_mode: reject what the library's strict mode rejects
+		parserOpts = append(parserOpts, parser.WithStrictMode())
+	}
+	p := parser.NewParser(parserOpts...)
 	astObj, err := p.ParseFromModelTokens(tokens)
 	if err != nil {
 		result.Error = fmt.Errorf("parsing failed: %w", err)
